@@ -221,7 +221,7 @@ def replay(path, seed):
     wd = vlib.workdir(PID, "replay_run")
     cpath = os.path.join(wd, "case.ndjson")
     vlib.write_cases([json.dumps(rec["case"])], cpath)
-    rep = vlib.run_harness("store", cpath, os.path.join(wd, "report.json"), ["--both-layouts"])
+    rep = vlib.run_harness("store", cpath, os.path.join(wd, "report.json"), ["--layout", str(rec["layout"])] if "layout" in rec else ["--both-layouts"])
     v = vlib.Verdict(PID)
     v.from_report(rep)
     for f in rep["failures"][:5]:
